@@ -84,6 +84,12 @@ func c12sRun(c c12sCase) (class, detail string) {
 		if strings.Contains(d, "modified") {
 			kind = "modified"
 		}
+		if strings.Contains(d, "deleted") {
+			kind = "deleted"
+		}
+		if c.Proposed != c.HeaderMid && c.HeaderMid == "NORMALMID001" {
+			via = "proposal-mid"
+		}
 		return "escape|session|" + kind + "|via " + via, strings.ReplaceAll(d, sb.Root, "<SANDBOX>")
 	}
 	return "", ""
@@ -105,6 +111,13 @@ func C12Session(args []string) {
 	hostile := c12sTokens()
 	for _, mid := range hostile {
 		cases = append(cases, c12sCase{Proposed: mid, HeaderMid: mid, PeerRole: "master"})
+	}
+	// the proposal carries the hostile identifier, the message itself a valid Mid
+	for _, mid := range hostile[:600] {
+		cases = append(cases, c12sCase{Proposed: mid, HeaderMid: "NORMALMID001", PeerRole: "master"})
+	}
+	for _, mid := range []string{"../../a", "../../aa", "../../../a", "../../pwn", "..\\..\\a", "a/../../../a", "../../outside/target"} {
+		cases = append(cases, c12sCase{Proposed: mid, HeaderMid: "NORMALMID001", PeerRole: "master"}, c12sCase{Proposed: mid, HeaderMid: "NORMALMID001", PeerRole: "slave"}, c12sCase{Proposed: mid, HeaderMid: mid, PeerRole: "slave"})
 	}
 	specials := []string{"", strings.Repeat("a", 300), "ü", "/etc/x", "~", "a/../../../../../../x", "..\\..\\pwn", "../../../../../../../../tmp/c12-absolute-escape", "a\x00b", "../\x00"}
 	for _, hm := range append(append([]string{}, hostile[:600]...), specials...) {
